@@ -456,6 +456,16 @@ def mon_hist(r, pid):
                 sent1[(s["c"], op["port"], op["chan"], int(s["ret_seq"]))] = (op["data"], op["th"], op["tt"])
             if s["out"] == "ok" and k == "send2":
                 sent2[(s["c"], op["src"], int(s["ret_seq"]))] = (op["tt"], op["pay"])
+            # unexpired: the receiving block's own height and time are strictly before the packet's timeout
+            if pid == "C05" and s["out"] == "ok" and k == "recv1":
+                p = op["p"]
+                hh = (int(s["h"][0]), int(s["h"][1])); th = (int(p["th"][0]), int(p["th"][1])); tt = int(p["tt"])
+                if (th != (0, 0) and hh >= th) or (tt != 0 and int(s["t"]) >= tt):
+                    return "step %d: v1 packet received at height %s time %s although its timeout (%s, %d) had been reached" % (i, hh, s["t"], th, tt)
+            if pid == "C05" and s["out"] == "ok" and k == "recv2":
+                q = op["q"]
+                if int(s["t"]) // 10 ** 9 >= int(q["tt"]):
+                    return "step %d: v2 packet received at block time %d s although its timeout is %s s" % (i, int(s["t"]) // 10 ** 9, q["tt"])
             if pid == "C05" and s["out"] == "ok" and k == "recv1":
                 p = op["p"]
                 if sent1.get((sender_of(s["c"], p["dp"], p["dc"]), p["sp"], p["sc"], int(p["seq"]))) != (p["data"], p["th"], p["tt"]):
